@@ -10,3 +10,9 @@ type E int
 
 // Num is a constraint interface from another package.
 type Num interface{ ~int | ~int64 }
+
+// Key and Entry let a signature mention this package twice, the second time as
+// an instantiated generic whose type argument comes from yet another package.
+type Key string
+
+type Entry[T any] struct{ V T }
